@@ -292,7 +292,12 @@ def b_incoming(r, v=0):
 
 
 def b_intersection(r, v=0):
-    return r.F.new(Intersection, 400 if v != 1 else 401, [b_incoming(r, v if v == "order" else 0)], ids(v, 8, 16) if v != 2 else {8})
+    # variant 3: same intersection id, same crossings, same number of incomings -- one incoming has another incoming_id
+    # variant 4: two incomings of which the second has another incoming_id (the first is matched by id on both sides)
+    incs = [b_incoming(r, v if v == "order" else (1 if v == 3 else 0))]
+    if True:
+        incs.append(r.F.new(IntersectionIncomingElement, 310 if v != 4 else 311, {72}, {80}, set(), set(), None))
+    return r.F.new(Intersection, 400 if v != 1 else 401, incs, ids(v, 8, 16) if v != 2 else {8})
 
 
 def b_area_border(r, v=0):
@@ -373,7 +378,7 @@ CLASSES = {
     "TrafficSignElement": (b_sign_element, [1, 2]), "TrafficSign": (b_sign, [1, 2, "order"]),
     "TrafficLightCycleElement": (b_cycle_element, [1]), "TrafficLightCycle": (b_cycle, [1, 2]),
     "TrafficLight": (b_light, [1, 2, 3]), "TrafficLight(default arguments)": (b_light_defaults, []),
-    "IntersectionIncomingElement": (b_incoming, [1, 2, "order"]), "Intersection": (b_intersection, [1, 2, "order"]),
+    "IntersectionIncomingElement": (b_incoming, [1, 2, "order"]), "Intersection": (b_intersection, [1, 2, 3, 4, "order"]),
     "AreaBorder": (b_area_border, [1]), "Area": (b_area, [1, 2]),
     "LaneletNetwork": (b_network, [1, "order"]),
     "GoalRegion": (b_goal, [1]), "GoalRegion(default arguments)": (b_goal_defaults, []),
